@@ -615,3 +615,66 @@ Definition optional_records {O : Type} (h : string * hres O) : hres O :=
 Definition read_cif_guarded {O : Type} (mv : mvconv) (rows : list row) (pre post : list (string * hres O))
   : res (list (frec O) * list string) :=
   read_cif mv rows (map optional_records pre) (map optional_records post).
+
+(* ---- file layer of the mmCIF route: io.get_molecule(input_path) ------------------------
+   path.suffix.lower() == ".cif"  ->  cif.read_cif(file)   (is_cif = True)
+   otherwise                       ->  pdb.read_pdb(file)
+   The CONTENT of the file plays no part in the choice.  [suffix] is pathlib's Path.suffix. *)
+
+Inductive route := RCif | RPdb.
+
+Definition lower_c (c : ascii) : ascii :=
+  let n := nat_of_ascii c in
+  if (65 <=? n)%nat && (n <=? 90)%nat then ascii_of_nat (n + 32) else c.
+
+Fixpoint lower_s (s : string) : string :=
+  match s with EmptyString => EmptyString | String c r => String (lower_c c) (lower_s r) end.
+
+Definition classify_input (suffix text : string) : route :=
+  if String.eqb (lower_s suffix) ".cif" then RCif else RPdb.
+
+Definition show_route (r : route) : string := match r with RCif => "cif" | RPdb => "pdb" end.
+
+(* what the generator of the harness calls a legal opening of an mmCIF file: blank lines and
+   comment lines (the CIF 1.1 magic code, banners), blanks, then the data_ keyword in any case *)
+Definition is_blank_c (c : ascii) : bool :=
+  let n := nat_of_ascii c in (n =? 32)%nat || (n =? 9)%nat || (n =? 10)%nat || (n =? 13)%nat.
+Definition is_eol_c (c : ascii) : bool :=
+  let n := nat_of_ascii c in (n =? 10)%nat || (n =? 13)%nat.
+
+Fixpoint skip_line (s : string) : string :=
+  match s with
+  | EmptyString => EmptyString
+  | String c r => if is_eol_c c then r else skip_line r
+  end.
+
+Definition starts_data (s : string) : bool := String.eqb (lower_s (take 5 s)) "data_".
+
+Fixpoint legal_opening_fuel (fuel : nat) (s : string) : bool :=
+  match fuel with
+  | O => false
+  | S f =>
+      match s with
+      | EmptyString => false
+      | String c r =>
+          if is_blank_c c then legal_opening_fuel f r
+          else if (nat_of_ascii c =? 35)%nat then legal_opening_fuel f (skip_line r)
+          else starts_data s
+      end
+  end.
+
+Definition legal_opening (s : string) : bool := legal_opening_fuel (S (String.length s)) s.
+
+(* several data blocks (fix_c10_f25): a block without an atom_site category is skipped; of the
+   blocks that have one, the records of the last are kept (as before) *)
+Definition cblock (O : Type) : Type :=
+  (option (list row) * (list (string * hres O) * list (string * hres O)))%type.
+
+Fixpoint read_cif_blocks {O : Type} (mv : mvconv) (bs : list (cblock O))
+  (acc : list (frec O) * list string) : res (list (frec O) * list string) :=
+  match bs with
+  | [] => Ok acc
+  | (None, _) :: t => read_cif_blocks mv t acc
+  | (Some rows, (pre, post)) :: t =>
+      r <- read_cif_guarded mv rows pre post ;; read_cif_blocks mv t r
+  end.
